@@ -353,6 +353,52 @@ def run(tier):
                               if not same else "the response is not equivalent to the file"),
                      "file_utf8": src, "response_latin1": h["out"], "engine_expansion_latin1": h["direct"], "exception": h["exc"],
                      "handlers": HANDLERS}, len(src))
+    # same-process histories: a served template (or a template it includes through dir/…) is rewritten between two
+    # requests; the second response must follow the file as it is NOW, whatever its mtime says
+    hist_worlds, hist_meta = [], []
+    T0 = 1700000000
+    for i in range(24 if thorough else 8):
+        one, two = "version-ONE-%d" % i, "version-TWO-%d" % i
+        if rng.random() < 0.5:
+            two = two + " and more text"            # another size
+        keep = rng.choice(["same-second", "same-second", "same-mtime-exact", "new-mtime"])
+        mt2 = {"same-second": T0 + rng.choice([0.0, 0.25, 0.9]), "same-mtime-exact": T0, "new-mtime": T0 + 5}[keep]
+        include = (i % 2 == 1)
+        if include:
+            page = '<html><body><div metal:use-macro="dir/footer/macros/f">x</div><p tal:content="selector">s</p></body></html>'
+            tree = [{"path": "page.html.tal", "data": page, "mtime": T0},
+                    {"path": "footer.html.tal", "data": '<p metal:define-macro="f">%s</p>' % one, "mtime": T0}]
+            steps = [{"serve": "/page.html.tal", "id": "first"},
+                     {"write": "footer.html.tal", "data": '<p metal:define-macro="f">%s</p>' % two, "mtime": mt2},
+                     {"serve": "/page.html.tal", "id": "second"}]
+        else:
+            tree = [{"path": "page.html.tal", "data": "<html><body><p>%s</p><script>v = '%s';</script></body></html>" % (one, one), "mtime": T0}]
+            steps = [{"serve": "/page.html.tal", "id": "first"},
+                     {"write": "page.html.tal", "data": "<html><body><p>%s</p><script>v = '%s';</script></body></html>" % (two, two), "mtime": mt2},
+                     {"serve": "/page.html.tal", "id": "second"}]
+        hist_worlds.append({"tree": tree, "config": {"handlers.HandlerMultiplexer": {"handlers": HANDLERS}}, "selectors": [],
+                            "steps": steps, "label": "history-%d" % i})
+        hist_meta.append({"one": one, "two": two, "rewritten": "included footer" if include else "the served file", "mtime": keep,
+                          "tree": tree, "steps": steps})
+    hres2 = impl_run([{"op": "tal_handler", "worlds": hist_worlds}])[0]
+    if not hres2["ok"]:
+        raise RuntimeError(hres2["err"] + hres2.get("tb", ""))
+    hist_stats = {"histories": len(hist_worlds), "followed_the_file": 0, "same_second_rewrites": sum(1 for m in hist_meta if m["mtime"] != "new-mtime")}
+    for k, m in enumerate(hist_meta):
+        first, second = hres2["res"][2 * k], hres2["res"][2 * k + 1]
+        ok1 = m["one"] in first["out"] and first["exc"] is None
+        ok2 = m["two"] in second["out"] and m["one"] not in second["out"].replace(m["two"], "") and second["exc"] is None
+        chk.count(("history", k, m["mtime"], m["rewritten"]), nontrivial=True)
+        if ok1 and ok2:
+            hist_stats["followed_the_file"] += 1
+            continue
+        found = True
+        fnd.add("served-stale", {"what": "a .html.tal file (or a template it includes) was rewritten between two requests in the same "
+                                         "process; the second response does not follow the current file",
+                                 "rewritten": m["rewritten"], "mtime_after_rewrite": m["mtime"], "files": m["tree"], "steps": m["steps"],
+                                 "first_response_latin1": first["out"], "second_response_latin1": second["out"],
+                                 "exceptions": [first["exc"], second["exc"]]}, len(m["two"]) + (100 if m["rewritten"] != "the served file" else 0))
+    served_stats["histories"] = hist_stats
     if served_stats["documents"] == 0 or served_stats["with_non_ascii"] == 0:
         found = True
         chk.violation({"what": "served-template leg did not serve anything (harness problem)", "stats": served_stats,
